@@ -419,8 +419,75 @@ pub fn c02(ctx: &mut Ctx) {
     crate::props_far::c02(ctx);
 }
 
+/// The bracket-less law on operands that *mean* something to the operator: keys and paths that
+/// resolve (or just fail to resolve) in the data, in every escaping, for `var` / `missing`; for the
+/// other one-operand-capable operators, references to such data. A shortcut taken for the bare
+/// spelling only (a direct map lookup, a borrowed value) differs exactly here.
+fn c03_unary_meaningful(ctx: &mut Ctx) {
+    let trees = vec![
+        json!({"a": {"b": {"c": 1}}, "a.b": "dotted", "a\\b": "backslash", "a\\": "trailing", "\\a": "leading", "a\\.b": "both", "x": null, "e": "", "z": [], "0": "zero-key", "-1": "minus-one-key", "1": "one-key", "01": "zero-one",
+               "arr": [10, [20, 21], {"k": "v"}, null, "str"], "s": "h\u{e9}llo\u{1F600}", "": {"": "empty-empty", "q": 1}, "\u{e9}": {"\u{65e5}": 3}, "\u{1F600}": "astral-key", "k": "a", "true": 1, "null": 2, "1.5": 3}),
+        json!([1, [2, [3, [4]]], {"a": [5, 6]}, "\u{65e5}\u{672c}\u{8a9e}", null, "", []]),
+        json!("a\u{1F600}\u{e9}\u{65e5}z"),
+        json!({"k": "a.b", "a": {"b": 7}}),
+        json!(5),
+        json!(null),
+    ];
+    let keys: Vec<Value> = vec![
+        json!("a"), json!("a.b"), json!("a.b.c"), json!("a\\.b"), json!("a\\b"), json!("a\\\\b"), json!("a\\"), json!("a\\\\"), json!("\\a"), json!("\\\\a"), json!("a\\\\.b"), json!("a\\\\\\.b"), json!("x"), json!("e"), json!("z"),
+        json!("0"), json!("-1"), json!("1"), json!("01"), json!("+1"), json!("arr.1.0"), json!("arr.-1"), json!("arr.2.k"), json!("s.1"), json!("s.-1"), json!("s.5"), json!(""), json!(".q"), json!("."), json!("\u{e9}.\u{65e5}"),
+        json!("\u{1F600}"), json!("\\\u{1F600}"), json!("\\\u{e9}.\\\u{65e5}"), json!("zz"), json!("k"), json!("true"), json!("null"), json!("1.5"), json!("2.0"), json!("2.0.0"), json!("-1.0"),
+        json!(0), json!(1), json!(-1), json!(2), json!(5), json!(-7), json!(1.5), json!(true), json!(false), json!(null), json!({}), json!({"a": 1}),
+    ];
+    let mut idx = 0u64;
+    for op in ["var", "missing", "missing_some"] {
+        for k in keys.iter() {
+            idx += 1;
+            if !ctx.mine(idx) {
+                continue;
+            }
+            for d in trees.iter() {
+                let bare = json!({ op: k });
+                let wrapped = json!({ op: [k] });
+                let (o1, _) = ctx.check("c03.model", &bare, d);
+                let (o2, _) = ctx.check("c03.model", &wrapped, d);
+                ctx.mon("c03.unary-form").observed += 1;
+                ctx.mon("c03.unary-form").judged += 1;
+                if !same_outcome(&o1.out, &o2.out) || o1.logs != o2.logs {
+                    ctx.violation("c03.unary-form", &format!("bare-vs-bracketed:{}:key:{}", op, type_name(k)), &bare, d, json!({"bracketed": o2.out.brief(), "logs": o2.logs}), json!({"bare": o1.out.brief(), "logs": o1.logs}), "{op: x} does not mean {op: [x]}");
+                }
+            }
+            ctx.mark_nontrivial_key(&format!("c03:{}:bare-key:{}", op, k));
+        }
+    }
+    // references to such data under every operator (the operand is an operation, so the bare form is legal JSON for all of them)
+    let refs: Vec<Value> = vec![json!({"var": "a"}), json!({"var": "arr"}), json!({"var": "arr.1"}), json!({"var": "s"}), json!({"var": "x"}), json!({"var": "k"}), json!({"var": ""}), json!({"var": "a\\b"}), json!({"var": 1}),
+                                json!({"var": {"var": "k"}}), json!({"missing": ["a", "zz"]}), json!({"merge": [{"var": "arr"}, 1]}), json!({"cat": [{"var": "s"}, "!"]}), json!({"if": [{"var": "x"}, 1, {"var": "arr"}]})];
+    for op in all_ops() {
+        for r in refs.iter() {
+            idx += 1;
+            if !ctx.mine(idx) {
+                continue;
+            }
+            for d in trees.iter() {
+                let bare = json!({ op: r });
+                let wrapped = json!({ op: [r] });
+                let (o1, _) = ctx.check("c03.model", &bare, d);
+                let (o2, _) = ctx.check("c03.model", &wrapped, d);
+                ctx.mon("c03.unary-form").observed += 1;
+                ctx.mon("c03.unary-form").judged += 1;
+                if !same_outcome(&o1.out, &o2.out) || o1.logs != o2.logs {
+                    ctx.violation("c03.unary-form", &format!("bare-vs-bracketed:{}:reference", op), &bare, d, json!({"bracketed": o2.out.brief(), "logs": o2.logs}), json!({"bare": o1.out.brief(), "logs": o1.logs}), "{op: x} does not mean {op: [x]}");
+                }
+            }
+        }
+    }
+    ctx.cell("unary-form:meaningful-operands");
+}
+
 pub fn c03(ctx: &mut Ctx) {
     c03_core(ctx);
+    c03_unary_meaningful(ctx);
     c03_nested(ctx);
     crate::props_sizes::c03(ctx);
     crate::props_far::c03(ctx);
